@@ -996,6 +996,10 @@ class AtLeast(puan.Proposition):
         if not self.generated_id:
             d['id'] = self.id
 
+        # sign is implied by value unless it was set explicitly to something else
+        if self.sign != (puan.Sign.POSITIVE if self.value > 0 else puan.Sign.NEGATIVE):
+            d['sign'] = int(self.sign)
+
         return d
 
     def to_b64(self, str_decoding: str = 'utf8') -> str:
@@ -1050,7 +1054,8 @@ class AtLeast(puan.Proposition):
         return AtLeast(
             value=data.get('value', 1),
             propositions=list(map(functools.partial(from_json, class_map=class_map), propositions)),
-            variable=data.get('id', None)
+            variable=data.get('id', None),
+            sign=data.get('sign', None),
         )
 
     @staticmethod
@@ -1499,6 +1504,7 @@ class AtMost(AtLeast):
         """
         d = super().to_json()
         d['value'] = -1*self.value
+        d.pop('sign', None)
         return d
 
 class All(AtLeast):
